@@ -771,7 +771,7 @@ func exInjectFault(r *rng, g *exGraph) (*exGraph, string) {
 	s := exDecodeStore(g.Docs, nil)
 	docs := g.docList()
 	holders := exAllHolders(s, docs)
-	kind := r.intn(4)
+	kind := r.intn(9) / 2 // 0 missing document, 1 2 dangling pointer, 3 ill-typed target, 4 absent optional member
 	if kind == 0 && len(docs) > 1 {
 		var others []string
 		for _, u := range docs {
@@ -821,6 +821,22 @@ func exInjectFault(r *rng, g *exGraph) (*exGraph, string) {
 			}
 			td["x-vals"] = map[string]interface{}{"string": "text", "number": 3.5, "boolean": true, "array": []interface{}{1.0, "a"}}
 			tokens = []string{"x-vals", tp}
+		} else if kind == 4 && h.Kind == exSchema {
+			// a pointer to an optional member that the (existing) target does not have
+			fault = "absent-member"
+			tokens = exPtrTokens(t.Ptr)
+			tv, _ := s.lookup(t)
+			tm, _ := tv.(map[string]interface{})
+			var absent []string
+			for _, k := range []string{"not", "additionalProperties", "additionalItems", "items"} {
+				if _, has := tm[k]; !has && tm != nil {
+					absent = append(absent, k)
+				}
+			}
+			if len(absent) == 0 {
+				continue
+			}
+			tokens = append(append([]string{}, tokens...), r.pick(absent))
 		} else {
 			tokens = exPtrTokens(t.Ptr)
 			if len(tokens) == 0 {
@@ -1390,7 +1406,7 @@ func exUnfoldAll(s exStore, root string, doc interface{}, depth int) map[string]
 	return out
 }
 
-func exGoView(g *exGraph, o *exOutcome, withUnf bool) (orderedMap, int) {
+func exGoView(g *exGraph, c *exCall, o *exOutcome, withUnf bool) (orderedMap, int) {
 	m := orderedMap{{"err", o.Err}, {"timeout", o.Timeout}, {"panic", o.Panic != ""}}
 	var out interface{}
 	if o.ok() && o.Out != nil {
@@ -1404,9 +1420,20 @@ func exGoView(g *exGraph, o *exOutcome, withUnf bool) (orderedMap, int) {
 	if withUnf {
 		var unf interface{}
 		if out != nil {
-			s := g.store().with(g.Root, out)
+			s := g.store()
 			for depth = 4; depth >= 1; depth-- {
-				u := exUnfoldAll(s, g.Root, out, depth)
+				var u interface{}
+				if c.Op == "expand_spec" {
+					// every definition, parameter, response and path item of the output, read at the root location
+					u = exUnfoldAll(s.with(g.Root, out), g.Root, out, depth)
+				} else {
+					// the expanded element, read in the context it was expanded in
+					loc := g.Root
+					if c.Entry != "base_path" {
+						loc = exPseudoRoot
+					}
+					u = s.with(loc, s[g.Root]).unfold(loc, out, exOpKind[c.Op], depth)
+				}
 				if len(exJSON(u)) < 12000 {
 					unf = u
 					break
@@ -1567,7 +1594,7 @@ func genExpandCases(r *rng, n int, tier string, cw *caseWriter) {
 		for _, o := range settings {
 			c := g.call("expand_spec", o)
 			res := exRun(c)
-			view, depth := exGoView(g, res, true)
+			view, depth := exGoView(g, c, res, true)
 			m := orderedMap{{"op", "expand_spec"}, {"nt", len(g.Refs) > 0}, {"tags", g.Tags}, {"docs", g.Docs}, {"root", g.Root}, {"opts", o},
 				{"missing", append([]string{}, g.Missing...)}, {"acyclic", g.Acyclic}, {"unf_depth", depth}, {"go", view}}
 			emit(m)
@@ -1584,14 +1611,14 @@ func genExpandCases(r *rng, n int, tier string, cw *caseWriter) {
 			c := g.call("resolve", exOpts{})
 			c.Kind, c.Ref, c.RootMode = rc.Kind, rc.Ref, mode
 			res := exRun(c)
-			view, _ := exGoView(g, res, false)
+			view, _ := exGoView(g, c, res, false)
 			emit(orderedMap{{"op", "resolve"}, {"nt", true}, {"kind", rc.Kind}, {"docs", g.Docs}, {"root", g.Root}, {"ref", rc.Ref}, {"root_mode", mode},
 				{"missing", append([]string{}, g.Missing...)}, {"expect", rc.Tag}, {"go", view}})
 			if rc.Kind == "Schema" && strings.HasPrefix(rc.Ref, "#") && rf.chance(1, 2) {
 				c2 := g.call("resolve_ref", exOpts{})
 				c2.Ref, c2.RootMode = rc.Ref, rf.pick([]string{"typed", "generic"})
 				res2 := exRun(c2)
-				view2, _ := exGoView(g, res2, false)
+				view2, _ := exGoView(g, c2, res2, false)
 				emit(orderedMap{{"op", "resolve_ref"}, {"nt", true}, {"kind", "Schema"}, {"docs", g.Docs}, {"root", g.Root}, {"ref", rc.Ref}, {"root_mode", c2.RootMode},
 					{"missing", append([]string{}, g.Missing...)}, {"expect", rc.Tag}, {"go", view2}})
 			}
@@ -1614,9 +1641,9 @@ func genExpandCases(r *rng, n int, tier string, cw *caseWriter) {
 			c := g.call(ec.Op, o)
 			c.Element, c.Entry = ec.Element, entry
 			res := exRun(c)
-			view, _ := exGoView(g, res, false)
+			view, depth := exGoView(g, c, res, true)
 			emit(orderedMap{{"op", ec.Op}, {"nt", true}, {"docs", g.Docs}, {"root", g.Root}, {"element", ec.Element}, {"entry", entry}, {"opts", o},
-				{"missing", append([]string{}, g.Missing...)}, {"form", ec.Form}, {"go", view}})
+				{"missing", append([]string{}, g.Missing...)}, {"form", ec.Form}, {"pseudo_root", exPseudoRoot}, {"unf_depth", depth}, {"go", view}})
 		}
 	}
 }
